@@ -28,11 +28,23 @@ def SubInv (s : Sess) : Prop := (∀ x : Nat, occ x s ≤ 1) ∧ ∀ x : Nat, 0 
 /-- every request record holds an allocated future -/
 def FutBound (s : Sess) : Prop := ∀ k, ∀ e ∈ s.tbl k, (e.2.fut : Nat) < s.futs.length
 
+def isInvoke : SOut → Bool
+  | .invoke _ _ _ _ => true
+  | _ => false
+
+def cleanB : SOut → Bool
+  | .raise_ .alreadyCalled | .caught .alreadyCalled | .raise_ .internal | .caught .internal => false
+  | _ => true
+
+/-- what waits in the callback queue is harmless: no double completion, no handler invocation -/
+def CbqOk (s : Sess) : Prop := ∀ o ∈ s.cbq, cleanB o = true ∧ isInvoke o = false
+
 structure Inv' (s : Sess) : Prop where
   keys : KeysInv s
   count : CountInv s
   subs : SubInv s
   futb : FutBound s
+  cbq : CbqOk s
 
 def Inv (s : Sess) : Prop := IdInv s ∧ Inv' s
 
@@ -44,10 +56,6 @@ def InvRel (s : Sess) (o : List SOut) (s' : Sess) : Prop :=
   IdRel s o s' ∧ Inv' s' ∧ Clean o ∧ s.futs.length ≤ s'.futs.length
 
 theorem InvRel.post {s s' : Sess} {o : List SOut} (r : InvRel s o s') : Inv s' := ⟨r.1.1, r.2.1⟩
-
-def cleanB : SOut → Bool
-  | .raise_ .alreadyCalled | .caught .alreadyCalled | .raise_ .internal | .caught .internal => false
-  | _ => true
 
 theorem Clean.of_all {o : List SOut} (h : o.all cleanB = true) : Clean o := by
   intro x hx
